@@ -58,7 +58,8 @@ Inductive cerr_kind : Set :=
 | CEDupName
 | CERecursion
 | CEMacroNotFound
-| CEWrapped (inner : cerr_kind).      (* processDirective: d.KeywordError(je.Error()) *)
+| CEWrapped (inner : cerr_kind)       (* processDirective: d.KeywordError(je.Error()) *)
+| CEMsg (cls : string).              (* catalog-stage diagnostics, by message class (model/Catalog.v) *)
 
 Record cerr : Set := { ce_file : bytes; ce_idx : N; ce_kind : cerr_kind; ce_trace : list (bytes * N) }.
 
@@ -567,6 +568,16 @@ Definition expand (ts : list dtree) : cres (list dtree) :=
   check_all_macros mfuel m (map fst m) [] >>=c fun _ =>
   paste_list (expand_fuel rest m) m rest {| ps_frames := []; ps_roots := []; ps_enums := [] |} >>=c fun p =>
   COk (rev (close_all (List.length (ps_frames p)) (ps_frames p) (ps_roots p))).
+
+(* as expand, but also returns the top-level list before expansion (macros removed) and the
+   enum names registered while pasting *)
+Definition expand_full (ts : list dtree) : cres (list dtree * list dtree * list bytes * macro_table) :=
+  collect_macro ts [] >>=c fun cm =>
+  let (rest, m) := cm in
+  let mfuel := (16 + 4 * fold_right (fun e acc => tree_size (snd e) + acc)%nat O m * S (List.length m))%nat in
+  check_all_macros mfuel m (map fst m) [] >>=c fun _ =>
+  paste_list (expand_fuel rest m) m rest {| ps_frames := []; ps_roots := []; ps_enums := [] |} >>=c fun p =>
+  COk (rest, rev (close_all (List.length (ps_frames p)) (ps_frames p) (ps_roots p)), rev (ps_enums p), m).
 
 Definition scan_fuel_project (files : fsys) (content : bytes) : nat :=
   let total := fold_right (fun e acc => (match snd e with FFile c => List.length c | FDir => O end + acc)%nat) (List.length content) files in
